@@ -94,9 +94,12 @@ pub fn run_one(prop: &str, base_seed: u64, tier: &str, index: u64, known: &Known
         Err(e) => {
             // an implementation may reject an out-of-range threshold at instantiate instead of
             // clamping it: such a deployment simply does not exist (no run, no verdict)
-            if e.starts_with("hub instantiate") && cfg.threshold() > cosmwasm_std::Decimal::one() {
+            // ... or be stricter about which parameter combinations it accepts: no property says
+            // which instantiate messages must be accepted. The check reports a harness error if
+            // more than half of its deployments are refused (see `check`).
+            if e.starts_with("hub instantiate") || e.starts_with("dispatcher instantiate") {
                 let mut st = Stats::default();
-                st.probe("deployment_with_out_of_range_threshold_rejected");
+                st.probe("deployment_rejected_at_instantiate");
                 return RunResult { index, seed, cfg, steps, violations: vec![], stats: st, harness_error: None, fault_free };
             }
             return RunResult { index, seed, cfg, steps, violations: vec![], stats: Stats::default(), harness_error: Some(format!("genesis: {}", e)), fault_free };
@@ -362,6 +365,11 @@ pub fn check(prop: &str, tier: &str) -> i32 {
     let mut results = std::mem::take(&mut *shared.results.lock().unwrap());
     results.sort_by_key(|r| r.index);
     // merge in index order: worker count cannot influence the outcome of any run
+    let refused = results.iter().filter(|r| r.stats.probes.get("deployment_rejected_at_instantiate").copied().unwrap_or(0) > 0).count();
+    if !results.is_empty() && refused * 2 > results.len() {
+        eprintln!("HARNESS ERROR: {} of {} generated deployments were refused at instantiate", refused, results.len());
+        return 2;
+    }
     if let Some(r) = results.iter().find(|r| r.harness_error.is_some()) {
         eprintln!("HARNESS ERROR in run {} (seed {}): {}", r.index, r.seed, r.harness_error.clone().unwrap());
         return 2;
